@@ -122,6 +122,7 @@ type fakeSrv struct {
 	release  chan struct{} // non-nil: close requests are executed but not answered until it is closed
 	noMore   bool          // a response said more_results = false
 	maxSync  int           // cut-off for a scanner that does not make progress
+	wire     bool          // responses reach the scanner decoded from their wire form (cellblock)
 }
 
 var errInjected = errors.New("injected rpc failure")
@@ -319,7 +320,41 @@ func (f *fakeSrv) SendRPC(call hrpc.Call) (proto.Message, error) {
 	}
 	ra, rb := c.regBounds(sc.reg)
 	f.replies = append(f.replies, fmt.Sprintf("R/%s~%s/%s/%s%s/%s", hx(ra), hx(rb), idOut, c06b01(mi), c06b01(mr), joinOrDash(fs, ",")))
+	if f.wire {
+		return c06ViaWire(scan, resp)
+	}
 	return resp, nil
+}
+
+// c06ViaWire hands the scanner the response in the form the region client produces: the message
+// unmarshalled from its bytes, the results decoded from a cellblock by the Scan's own
+// DeserializeCellBlocks (cells_per_result / partial_flag_per_result), not pb.Results built by hand.
+func c06ViaWire(scan *hrpc.Scan, resp *pb.ScanResponse) (proto.Message, error) {
+	var block []byte
+	for _, r := range resp.Results {
+		resp.CellsPerResult = append(resp.CellsPerResult, uint32(len(r.Cell)))
+		resp.PartialFlagPerResult = append(resp.PartialFlagPerResult, r.GetPartial())
+		for _, c := range r.Cell {
+			block = hrpc.VerifAppendCellblock(c.Row, string(c.Family), string(c.Qualifier), c.Value, 42, 4, block)
+		}
+	}
+	resp.Results = nil
+	b, err := proto.Marshal(resp)
+	if err != nil {
+		return nil, err
+	}
+	m := scan.NewResponse()
+	if err := proto.Unmarshal(b, m); err != nil {
+		return nil, err
+	}
+	n, err := scan.DeserializeCellBlocks(m, block)
+	if err != nil {
+		return nil, err
+	}
+	if int(n) != len(block) {
+		return nil, fmt.Errorf("cellblock: %d of %d bytes read", n, len(block))
+	}
+	return m, nil
 }
 
 func c06b01(b bool) string {
@@ -418,6 +453,12 @@ func (f *fakeSrv) mutate(frs []sfrag, mi, mr, isOpen bool) ([]sfrag, bool, bool,
 	case 6:
 		if len(frs) > 0 {
 			frs[len(frs)-1].partial = true
+		}
+	case 7, 8:
+		// every fragment flagged partial, also those that end their row (a server that cuts at a
+		// size limit does not know the row is over): several rows in pieces in one response
+		for i := range frs {
+			frs[i].partial = true
 		}
 	}
 	return frs, mi, mr, withID
@@ -590,7 +631,7 @@ func runScan(c *scanCase, ch *chooser, plan endPlan, cfg runCfg) runOut {
 		bound += r.n
 	}
 	f := &fakeSrv{c: c, ch: ch, chaos: cfg.chaos, scanners: map[uint64]*rscanner{}, nextID: cfg.idBase,
-		errAt: -1, hbLeft: cfg.hb, maxFrags: cfg.maxFrags, maxSync: bound}
+		errAt: -1, hbLeft: cfg.hb, maxFrags: cfg.maxFrags, maxSync: bound, wire: cfg.idBase%4 != 0}
 	if plan.kind == "err" {
 		f.errAt = plan.n
 	}
